@@ -230,6 +230,7 @@ class World:
             violation=self.violation,
             nontrivial=sorted(self.nontrivial),
             schedules=sorted(self.schedules),
+            interleaving=sha([(o.get("client", 0), o["op"], o.get("inst"), o.get("s")) for o in self.spec["ops"]]),
             samples=self.samples[:2],
             logical_time=self.logical_time,
             line_events=self.line_events,
